@@ -16,13 +16,28 @@ PointsFrom(vars, i, D) ==
 Points(m, D) == PointsFrom(m.vars, 1, D)
 
 AnyClipped(d) == \E i \in 1..Len(d.vars) : d.vars[i].clipped
+\* The witness search tries grid values only.  For an auxiliary variable that is continuous, not fixed and not
+\* determined by a constraint from the variables assigned before it (a weight of a convex combination, say) the
+\* search is therefore incomplete: "no witness on the grid" says nothing about the reals.
+FreeContinuous(d) == \E k \in 1..Len(d.steps) :
+                        LET st == d.steps[k]  v == d.vars[st.v]
+                        IN st.det = 0 /\ ~v.int /\ v.lb < v.ub
+\* ... and a continuous variable computed from a linear equality in which its coefficient is not +-1 may get a
+\* value off the grid (x = 3 * lambda, x = 1): the search then has no candidate although a real one exists
+OffGridLinEq(d) == \E k \in 1..Len(d.steps) :
+                      LET st == d.steps[k]  v == d.vars[st.v]
+                      IN /\ st.det > 0 /\ st.dk = "lineq" /\ ~v.int /\ v.lb < v.ub
+                         /\ LET c == d.cons[st.det]
+                                ai == SeqSum([j \in 1..Len(c.lin) |-> IF c.lin[j][2] + 1 = st.v THEN c.lin[j][1][1] ELSE 0])
+                            IN ai \notin {1, -1}
+Incomplete(d) == AnyClipped(d) \/ FreeContinuous(d) \/ OffGridLinEq(d)
 
 \* verdict for one point: "ok", "skip" (not exactly representable), "inconclusive", or a violation tag
 PointVerdict(m, d, p, D) ==
   IF ~NLExact(m, p, D) THEN "skip"
   ELSE LET nl == NLSat(m, p, D)
            w == HasWitness(d, p, D)
-       IN IF nl /\ ~w THEN (IF AnyClipped(d) THEN "inconclusive" ELSE "cut-off")          \* feasible point lost
+       IN IF nl /\ ~w THEN (IF Incomplete(d) THEN "inconclusive" ELSE "cut-off")          \* feasible point lost
           ELSE IF ~nl /\ w THEN "extra"                                                     \* infeasible point admitted
           ELSE IF ~nl THEN "ok"
           ELSE IF Len(m.objs) = 0 \/ Len(d.objs) = 0
@@ -33,7 +48,7 @@ PointVerdict(m, d, p, D) ==
                IN IF d.objs[1].max # m.objs[1].max THEN "obj-sense"
                   ELSE IF PEq(best, orig) THEN "ok"
                   ELSE IF (d.objs[1].max /\ PLt(best, orig)) \/ (~d.objs[1].max /\ PLt(orig, best))
-                         THEN (IF AnyClipped(d) THEN "inconclusive" ELSE "obj-worse")
+                         THEN (IF Incomplete(d) THEN "inconclusive" ELSE "obj-worse")
                   ELSE "obj-better"
 
 Known(d, D) == \A j \in 1..Len(d.cons) : ConKnown(d.cons[j], D)
